@@ -675,7 +675,15 @@ func genC10(g *G) {
 		// negative zero (sign byte 3, zero magnitude) is outside the decimal model: implementation only
 		mb, err := cdcOutcomeMsgBytes(ver, normalise(m))
 		if err == nil {
-			if d, derr := codec.Decode(mb); derr == nil && cdcOutcomeHasNegZero(d) {
+			negZero := false
+			func() {
+				// the case is emitted either way; a panic of the decoder must show up on the op, not kill the generator
+				defer func() { _ = recover() }()
+				if d, derr := codec.Decode(mb); derr == nil && cdcOutcomeHasNegZero(d) {
+					negZero = true
+				}
+			}()
+			if negZero {
 				g.EmitImpl(op, tag, "neg-zero")
 				continue
 			}
